@@ -5,6 +5,7 @@ mod proto;
 mod rng;
 mod run;
 mod c05;
+mod c18;
 pub mod filters;
 
 use std::io::Write;
@@ -32,6 +33,7 @@ fn main() {
     let mut ctx = Ctx { tier_thorough: args[2] == "thorough", seed: args[3].parse().unwrap_or(0), out: Vec::new() };
     match args[1].as_str() {
         "C05" => c05::run(&mut ctx),
+        "C18" => c18::run(&mut ctx),
         other => {
             eprintln!("unknown property {}", other);
             std::process::exit(2);
